@@ -222,6 +222,25 @@ class C14(Check):
                     if raw != ctr_xor(eng.key_normal[0x34], ivx, bytes(ref.content), False) and not mon:
                         mon.append('after writes the backing file is not the encryption of the logical plaintext')
                         key_ = 'sd.rw'
+                    # a handle opened for reading only: a write on it is refused (as on any file opened 'rb'), and reading goes on
+                    # from where it was as if nothing had been attempted
+                    plain = bytes(ref.content)
+                    with opener(view, vpath, 'rb') as f:
+                        k = rng.pick([0, 1, 16, 17]) if plain else 0
+                        got = f.read(k)
+                        try:
+                            f.write(rng.rbytes(rng.pick([1, 16, 20])))
+                            refused = False
+                        except Exception:  # noqa
+                            refused = True
+                        got += f.read()
+                        if not mon and (got != plain or not refused):
+                            mon.append('read-only handle: ' + ('the write was not refused' if not refused else
+                                                               'data read after the refused write differs from the plaintext'))
+                            key_ = 'sd.read'
+                    if base.readbytes(f'{id0}/{id1}/' + full) != raw and not mon:
+                        mon.append('a write on a read-only handle changed the backing file')
+                        key_ = 'sd.rw'
                     outs.append(raw.hex() or '-')
                     models.append(raw.hex() or '-')
                 except Exception as ex:  # noqa
